@@ -77,6 +77,12 @@ pub struct Config {
     pub shutdown_timeout_s: u64,
     /// record every poll_ready of the scripted services (C07)
     pub log_ready: bool,
+    /// a change of a service's readiness mode does not wake the worker by itself when the
+    /// service holds no waker (the worker finds out whenever it polls next)
+    pub silent_modes: bool,
+    /// `new_service` futures of re-created services (instance >= 2) are Pending this many times
+    /// before they resolve (asynchronous initialisation)
+    pub factory_pending: usize,
 }
 
 #[derive(Clone, Copy, Debug, PartialEq, Eq, Hash, PartialOrd, Ord)]
@@ -105,6 +111,8 @@ pub enum Ev {
     Connect(usize),
     /// release connection c's service future, then let that worker run
     Complete(usize),
+    /// connection c's service future panics (caught by the task), then that worker runs
+    Fail(usize),
     Pause,
     Resume,
     Stop(bool),
@@ -151,6 +159,7 @@ pub enum Rec {
     /// the server task handled a Stop command (it woke the accept loop with Stop)
     StopProcessed,
     /// waker queue content at the start of an accept turn
+    ConnPanicked { conn: usize },
     AcceptQueueBefore(Vec<String>),
     /// the interests the accept loop took off its queue in this turn (those queued before the
     /// turn plus those pushed while it ran, minus what is left)
@@ -210,7 +219,7 @@ pub struct World {
     // services
     modes: RefCell<BTreeMap<(usize, usize), Mode>>,
     ready_wakers: RefCell<BTreeMap<(usize, usize), Waker>>,
-    inflight: RefCell<BTreeMap<usize, oneshot::Sender<()>>>,
+    inflight: RefCell<BTreeMap<usize, oneshot::Sender<bool>>>,
     instances: RefCell<BTreeMap<(usize, usize), usize>>,
     building_slot: Cell<Option<usize>>,
     current_turn_slot: Cell<Option<usize>>,
@@ -273,6 +282,30 @@ struct ScriptedSvc {
     slot: usize,
     svc: usize,
     instance: usize,
+}
+
+/// `new_service` future of the scripted factory: resolves at once for the first instance of a
+/// service, after `factory_pending` self-woken Pending polls for a re-created one.
+async fn create_service(svc: usize) -> Result<ScriptedSvc, ()> {
+    let w = world();
+    let slot = w.building_slot.get().or(w.current_turn_slot.get()).expect("service created outside a worker");
+    let recreated = w.instances.borrow().get(&(slot, svc)).copied().unwrap_or(0) >= 1;
+    if recreated {
+        for _ in 0..w.cfg.factory_pending {
+            let mut first = true;
+            std::future::poll_fn(|cx| {
+                if first {
+                    first = false;
+                    cx.waker().wake_by_ref();
+                    Poll::Pending
+                } else {
+                    Poll::Ready(())
+                }
+            })
+            .await;
+        }
+    }
+    Ok(ScriptedSvc::create(svc))
 }
 
 impl ScriptedSvc {
@@ -338,7 +371,7 @@ impl<Io: AsRawFd + 'static> Service<Io> for ScriptedSvc {
         let w = world();
         let conn = w.identify(io.as_raw_fd());
         w.rec(Rec::Call { conn, slot: self.slot, svc: self.svc, instance: self.instance });
-        let (tx, rx) = oneshot::channel::<()>();
+        let (tx, rx) = oneshot::channel::<bool>();
         if let Some(c) = conn {
             w.inflight.borrow_mut().insert(c, tx);
         } else {
@@ -357,10 +390,16 @@ impl<Io: AsRawFd + 'static> Service<Io> for ScriptedSvc {
         }
         Box::pin(async move {
             let mut guard = OnDrop(conn, false);
-            let _ = rx.await;
+            let fail = rx.await == Ok(true);
             guard.1 = true;
             if let Some(c) = conn {
                 world().rec(Rec::Done { conn: c });
+            }
+            if fail {
+                if let Some(c) = conn {
+                    world().rec(Rec::ConnPanicked { conn: c });
+                }
+                panic!("service future panics (expected-by-harness)");
             }
             drop(io);
             Ok(())
@@ -933,9 +972,13 @@ impl World {
     }
 
     pub fn complete(&self, conn: usize) {
+        self.finish(conn, false)
+    }
+
+    pub fn finish(&self, conn: usize, panic: bool) {
         let tx = self.inflight.borrow_mut().remove(&conn);
         if let Some(tx) = tx {
-            let _ = tx.send(());
+            let _ = tx.send(panic);
         }
         // the worker that serves it runs
         let slot = self.log.borrow().iter().rev().find_map(|(_, _, r)| match r {
@@ -1072,7 +1115,7 @@ impl Sys {
                     let lst = std::net::TcpListener::bind(&ip).or_else(|_| std::net::TcpListener::bind("127.0.0.1:0")).expect("bind");
                     w.laddrs.borrow_mut().push(LAddr::Tcp(lst.local_addr().unwrap()));
                     builder = builder
-                        .listen(format!("svc{i}"), lst, move || fn_factory(move || async move { Ok::<_, ()>(ScriptedSvc::create(i)) }))
+                        .listen(format!("svc{i}"), lst, move || fn_factory(move || create_service(i)))
                         .expect("listen");
                 }
                 LKind::Uds => {
@@ -1082,7 +1125,7 @@ impl Sys {
                     sys.uds_paths.push(path.clone());
                     w.laddrs.borrow_mut().push(LAddr::Uds(path));
                     builder = builder
-                        .listen_uds(format!("svc{i}"), lst, move || fn_factory(move || async move { Ok::<_, ()>(ScriptedSvc::create(i)) }))
+                        .listen_uds(format!("svc{i}"), lst, move || fn_factory(move || create_service(i)))
                         .expect("listen_uds");
                 }
             }
@@ -1117,6 +1160,7 @@ impl Sys {
         match ev {
             Ev::Connect(l) => self.connect(l),
             Ev::Complete(c) => w.complete(c),
+            Ev::Fail(c) => w.finish(c, true),
             Ev::Pause | Ev::Resume | Ev::Stop(_) => {
                 let h = w.handle.borrow().clone().unwrap();
                 let fut: Pin<Box<dyn Future<Output = ()>>> = match ev {
@@ -1169,7 +1213,7 @@ impl Sys {
                 let wk = w.ready_wakers.borrow_mut().remove(&(slot, svc));
                 if let Some(wk) = wk {
                     wk.wake();
-                } else {
+                } else if !w.cfg.silent_modes {
                     // the worker only looks at readiness when it is polled
                     w.worker_flag(slot).set();
                 }
@@ -1191,6 +1235,12 @@ impl Sys {
         }
         w.poll_cmds();
         w.probe_clients(None, 0);
+        // Normalise the kernel's ready list at every event boundary: an entry whose fd has been
+        // drained in the meantime stays on the list (invisible from user space) and would keep
+        // its early position if the fd became ready again. Reading the list drops such entries;
+        // the live ones are put back in the same order. Every order of pending events remains
+        // reachable through the order of the events that cause them.
+        let _ = w.edges();
     }
 
     fn connect(&mut self, l: usize) {
